@@ -24,7 +24,8 @@ REQUIRED_CLASSES = {"all": ["op:qn", "op:str:pl", "op:str:bare", "op:str:uri", "
                             "clash", "resolved_via_parent"]}
 
 PREFIXES = ["ex", "p", "ex_1", "dn", "dn_1", "prov", ""]
-URIS = ["http://a/", "http://a/x/", "http://b/ns#", "urn:c:", "http://www.w3.org/ns/prov#"]
+URIS = ["http://a/", "http://a/x/", "http://b/ns#", "urn:c:", "http://a/my%20data/", "http://a/caf\u00e9#", "http://A/",
+        "http://www.w3.org/ns/prov#"]
 LOCALS = ["a", "b1", "x/y", "c.d", "r?u=http://a/", "x/"]
 PLAIN_LOCALS = ["a", "b1", "x/y", "c.d"]
 BUILTIN = {"prov": "http://www.w3.org/ns/prov#", "xsd": "http://www.w3.org/2001/XMLSchema#",
@@ -264,7 +265,7 @@ def apply(s, op, ctx):
 def make_machine(Base):
     class NamespaceHistories(Base):
         @rule(how=st.sampled_from(["bundle", "add_bundle"]), prefix=st.sampled_from(PREFIXES[:5]),
-              uri=st.sampled_from(URIS[:4]))
+              uri=st.sampled_from(URIS[:7]))
         def bundle(self, how, prefix, uri):
             self.do(["bundle", how, prefix, uri])
 
@@ -272,7 +273,7 @@ def make_machine(Base):
         def add_namespace(self, scope, prefix, uri, obj):
             self.do(["ns", scope, prefix, uri, obj])
 
-        @rule(scope=st.integers(0, 3), uri=st.sampled_from(URIS[:4]))
+        @rule(scope=st.integers(0, 3), uri=st.sampled_from(URIS[:7]))
         def set_default(self, scope, uri):
             self.do(["default", scope, uri])
 
